@@ -107,7 +107,7 @@ type tamper struct {
 func TestCheck(t *testing.T) {
 	r := vf.Start(t, "C12", vf.Exploration)
 	defer r.Finish()
-	r.SetRule("(A) round trip / binding: (key from a seeded pool) x (context from {empty, 1 char, doc example, 4 KiB, unicode, embedded NUL, PRNG bytes}) x (message lengths 0,1,2,15..17,31..36,63..65,100,255,256,1000,4096,65535..65537,1 MiB x {random, zeros, text}) plus PRNG-drawn (key,ctx,msg); for each ciphertext: decrypt with the right key+ctx must return exactly the message; decrypt with 2 other keys and with up to 9 neighbouring contexts (suffix/prefix added or removed, case, 1 bit, empty; 3 of them for messages >= 64 KiB) must return an error. Messages >= 64 KiB take seconds per call under the race detector: the quick tier runs 65535/65536/65537 bytes with one kind and one context each and 1 MiB with two kinds (the thorough tier all kinds under 4 of the 8 contexts); messages >= 2000 bytes run in the background overlapping the other phases. " +
+	r.SetRule("(A) round trip / binding: (key from a seeded pool) x (context from {empty, 1 char, doc example, 4 KiB, unicode, embedded NUL, PRNG bytes}) x (message lengths 0,1,2,15..17,31..36,63..65,100,255,256,1000,4096,65535..65537,1 MiB x {random, zeros, text}; highly compressible messages of 4 MiB+1 and 6 MiB (thorough: 1 MiB+1 .. 32 MiB+1)) plus PRNG-drawn (key,ctx,msg); for each ciphertext: decrypt with the right key+ctx must return exactly the message; decrypt with 2 other keys and with up to 9 neighbouring contexts (suffix/prefix added or removed, case, 1 bit, empty; 3 of them for messages >= 64 KiB) must return an error. Messages >= 64 KiB take seconds per call under the race detector: the quick tier runs 65535/65536/65537 bytes with one kind and one context each and 1 MiB with two kinds (the thorough tier all kinds under 4 of the 8 contexts); messages >= 2000 bytes run in the background overlapping the other phases. " +
 		"(B) tamper sets, complete per chosen ciphertext (20 ciphertexts quick / 200 thorough; ciphertext lengths 53..~190 bytes): every single-bit flip, every truncation [0,len), extension by 1..32 bytes (random tail, zero tail, random head), byte substitutions (1 PRNG value per position in the quick tier, 3 in the thorough tier; all 255 values at each header position 0..35 for the first ciphertext(s)), every splice a[:k]+b[k:] with a sibling ciphertext (same key+ctx other message / same message other key / same message other ctx): each tampered string differs from the original and must yield an error. " +
 		"(C) arbitrary bytes: PRNG strings (lengths 0..220, dense around the 34/36/52-byte header boundaries) and multi-byte mutations of valid ciphertexts: never a panic; a mutated valid ciphertext (bytes differ) must yield an error. " +
 		"A case is non-trivial when the code under test was actually invoked on it (encryption succeeded for A/B); distinct = distinct (phase, key, ctx, message, mutation). The oracle is the harness' own record of what was encrypted for whom; it never inspects the scheme. Heap bytes allocated per decrypt of hostile input are measured and reported (observed only, not a verdict).")
@@ -151,6 +151,18 @@ func TestCheck(t *testing.T) {
 				ki++
 			}
 		}
+	}
+	// large, highly compressible messages: the size a limit sees differs by orders
+	// of magnitude before and after the compression step inside the scheme
+	// (power-of-two boundaries +-1; zeros and repeated text compress ~1000:1)
+	bigLens := []int{4<<20 + 1, 6 << 20}
+	if !r.Quick() {
+		bigLens = []int{1<<20 + 1, 2 << 20, 4 << 20, 4<<20 + 1, 8<<20 + 1, 16 << 20, 32<<20 + 1}
+	}
+	for bi, l := range bigLens {
+		k := []string{"zero", "text"}[bi%2]
+		cases = append(cases, &encCase{key: ki % len(pool), ctx: ctxs[(bi+1)%len(ctxs)], msg: makeMsg(rng, k, l), kind: k})
+		ki++
 	}
 	nA := r.N(700, 6000)
 	for len(cases) < nA {
